@@ -267,7 +267,7 @@ func init() {
 				if o.panic_ != "" {
 					ci.Observed = "panic: " + o.panic_
 				}
-				ci.Coq = fmt.Sprintf("(mk_c15case %s %s %s %d%%nat)", coqCodePoints(text), gd{pos}.program(prog), parsed, nerr)
+				ci.Coq = fmt.Sprintf("(mk_c15case %s %s %s %d%%nat)", coqCodePoints(text), gd{pos, nil}.program(prog), parsed, nerr)
 				if k := knownSignature(text); k != "" {
 					ci.Known = k
 				}
